@@ -9,7 +9,7 @@ import re
 import textwrap
 
 from ..core.loader import FunctionInfo
-from ..core.terms import (c, evaluate, fn_name, kw, n, pretty, substitute, subterms)
+from ..core.terms import (cmp_, not_, pc, phi_, c, evaluate, fn_name, kw, n, pretty, substitute, subterms)
 from ..domains.keys import KeyAnalysis
 from .common import LIB_FACTS, is_call, method, short
 
@@ -212,7 +212,7 @@ def check(ctx):
                 docw = x
         docn = substitute(doc_ret, {docw: W}) if docw else doc_ret
         impl_c, doc_c = _canon(impl), _canon(docn)
-        after = ("cmp", ">", i_, p_)
+        after = cmp_(">", i_, p_)
         ok = impl_c == ("op", "&", doc_c, _canon(after))
         ctx.ob("C20.R4", se, "stop_early == (documented rule: diff <= atol | diff/abs(best) "
                              "<= rtol, oldest = first, best = min of the window) & (i > "
@@ -222,16 +222,14 @@ def check(ctx):
                facts={"documented": pretty(doc_c)[:300]})
     sn = method(repo, sc, "stop_now", own=True)
     rn = evaluate(repo, sn).ret()
-    early = ("call", ("a", n("self"), "stop_early"), (),
-             (("i", i_), ("loss_history", n("loss_history"))))
-    limit = ("cmp", ">=", i_, ("op", "-", ("a", n("self"), "max_iter"), c(1)))
+    early = ("call", ("a", n("self"), "stop_early"), (i_, n("loss_history")), ())
+    limit = cmp_(">=", i_, ("op", "-", ("a", n("self"), "max_iter"), c(1)))
     ctx.ob("C20.R4", sn, "stop_now = stop_early | (i >= max_iter - 1)",
            rn in (("op", "|", early, limit), ("op", "|", limit, early)),
            detail=short(rn or ()), stmt="stop_now " + pretty(rn or ())[:160])
     cn = method(repo, sc, "continue_", own=True)
     rc = evaluate(repo, cn).ret()
-    now = ("call", ("a", n("self"), "stop_now"), (),
-           (("i", i_), ("loss_history", n("loss_history"))))
+    now = ("call", ("a", n("self"), "stop_now"), (i_, n("loss_history")), ())
     ctx.ob("C20.R4", cn, "continue_ is the negation of stop_now", rc == ("u", "~", now),
            detail=short(rc or ()))
     wb = method(repo, sc, "which_best_in_recent_history", own=True)
